@@ -7,7 +7,7 @@ from pbt import gens, oracles as o
 from pbt.core import Outcome, Raised, SubCheck, bad, discard, lib_call
 
 PROPERTY = "C12"
-RULE = ("Configurations: observed length 1..10, run limit none / 1..k+2, GC range from dyadic, decimal, degenerate "
+RULE = ("Configurations: observed length 1..10 and 16, 33, 40, 64, run limit none / 0 / 1..k+2, GC range from dyadic, decimal, degenerate "
         "and asymmetric bounds, 0..3 motifs of length 1..k (also text-palindromic ones); configurations the "
         "constructor rejects are counted. Strings over ACGT and over a wider alphabet, length 0..3k+2, biased to "
         "boundary GC counts, to runs of exactly limit and limit+1, and to strings containing a motif's reverse "
@@ -22,12 +22,14 @@ ASSUMPTIONS = ["0 <= lo <= hi <= 1; motifs are non-empty ACGT strings; GC bounds
 
 @st.composite
 def cases(draw, tier):
-    k = draw(st.sampled_from([1, 2, 3, 3, 4, 4, 5, 5, 6, 8, 10]))
+    k = draw(st.sampled_from([1, 2, 3, 3, 4, 4, 5, 5, 6, 8, 10, 16, 33, 40, 64]))
     cfg = draw(gens.local_filter_cfgs(k, decidable=draw(st.integers(0, 3)) > 0))
     if cfg["motifs"] is not None and draw(st.booleans()):
         extra = draw(st.sampled_from(["GAG", "AA", "ACA", "TCT", "GC", "AT", "CTC", "A", "CG", "ACGT", "GAATTC"]))
         if len(extra) <= k:
             cfg = dict(cfg, motifs=list(cfg["motifs"]) + [extra])
+    if draw(st.sampled_from([False] * 11 + [True])):
+        cfg = dict(cfg, run=0)  # a legal run limit: every non-empty string has a run longer than 0
     rng = random.Random(draw(st.integers(0, 2 ** 32 - 1)))
     n = draw(st.one_of(st.integers(k, 3 * k + 2), st.integers(k, 2 * k), st.integers(0, 3 * k + 2)))
     shape = draw(st.sampled_from(["random", "random", "gc_boundary", "gc_boundary", "run", "run", "motif_rc",
@@ -59,8 +61,19 @@ def cases(draw, tier):
             pos = rng.randrange(0, n - len(piece) + 1)
             text[pos: pos + len(piece)] = list(piece)
     elif shape == "foreign" and n:
-        text[rng.randrange(n)] = rng.choice("acgtNU-x ")
-    return {"cfg": cfg, "text": "".join(text)}
+        where = rng.choice([rng.randrange(n), n - 1, n - 1])
+        text[where] = rng.choice("acgtNU-x \n\n\t\r\x00")
+    text = "".join(text)
+    # further strings judged by the SAME filter object afterwards (verdicts must not depend on earlier calls):
+    # variants that share a long suffix with the first string, and the first string again
+    followers = []
+    for _ in range(draw(st.integers(0, 3))):
+        cut = rng.randrange(0, max(1, len(text) - min(len(text), 32) + 1))
+        head = "".join(rng.choice("ACGT") for _ in range(cut)) if rng.random() < 0.7 else "A" * cut
+        followers.append(head + text[cut:])
+    if followers and rng.random() < 0.5:
+        followers.append(text)
+    return {"cfg": cfg, "text": text, "followers": followers}
 
 
 def evaluate(case):
@@ -74,6 +87,10 @@ def evaluate(case):
         return bad("LocalBioFilter(%r) raised %r" % (cfg, built), labels)
     rules = sum(1 for key in ("run", "gc", "motifs") if cfg.get(key) is not None)
     labels.append("rules=%d" % rules)
+    if cfg.get("run") == 0:
+        labels.append("run=0")
+    if text.endswith("\n"):
+        labels.append("trailing_newline")
     acgt = all(c in o.NUC for c in text)
     verdicts = {}
     for only_last in (False, True):
@@ -105,6 +122,14 @@ def evaluate(case):
             return bad("window-decidable configuration %r: whole verdict %r for %r but window verdicts %r"
                        % (cfg, verdicts[False], text, windows), labels)
         labels.append("window_conjunction")
+    for later in case.get("followers", []):
+        for only_last in (True, False):
+            want = o.ref_local_filter(cfg, later, only_last=only_last)
+            got = lib_call(built.valid, later, only_last=only_last)
+            if want is not None and (isinstance(got, Raised) or bool(got) != want):
+                return bad("the same filter object, after judging %r, says valid(%r, only_last=%s) = %r; the "
+                           "documented predicate gives %r for %r" % (text, later, only_last, got, want, cfg), labels)
+        labels.append("same_object_again")
     boundary = False
     if cfg["gc"] is not None and acgt and text:
         from fractions import Fraction
@@ -128,7 +153,8 @@ def evaluate(case):
 SUBCHECKS = [
     SubCheck("predicate", evaluate, strategy=cases, examples=(12000, 150000), shards=(16, 16),
              floors={"gc_on_bound": 500, "rc_only_motif_hit": 150, "window_conjunction": 1500,
-                     "shorter_than_window": 800, "foreign": 300, "accepts": 1500, "rejects": 1500, "rules=3": 300},
+                     "shorter_than_window": 800, "foreign": 300, "accepts": 1500, "rejects": 1500, "rules=3": 300,
+                     "same_object_again": 1500, "k=40": 200, "run=0": 200, "trailing_newline": 60},
              rule=RULE),
 ]
 
